@@ -335,7 +335,7 @@ impl Check for C15 {
         let k = kinds::C15_KINDS.len() as u64;
         match tier {
             Tier::Quick => 12 * k,
-            Tier::Thorough => 120 * k,
+            Tier::Thorough => 100 * k,
         }
     }
     fn plan(&self, master: u64, idx: u64, tier: Tier) -> Value {
@@ -489,7 +489,9 @@ impl Check for C15 {
             }
             // index kinds: if the corrupted index still loads, query the intact data file with it
             if let Some((dk, data)) = &made.companion {
-                if p.layer == Layer::Raw || kind.is_bgzf_container() {
+                // (a query protocol over a large data file costs tens of ms: every 8th mutation then;
+                // decided from the plan, never from a clock)
+                if (p.layer == Layer::Raw || kind.is_bgzf_container()) && (data.len() <= 100_000 || i % 8 == 0 || muts.len() == 1) {
                     let obs = observe(|o| query::query(kind, &bytes, *dk, data.clone(), &mut o.items));
                     let s = &mut *ctx.stats;
                     s.evaluations += 1;
